@@ -49,6 +49,7 @@ type c10bCommit struct {
 }
 
 type c10bBroker struct {
+	perFetch int
 	ln   net.Listener
 	host string
 	port int32
@@ -421,6 +422,9 @@ func (b *c10bBroker) fetchOnce(r *kmsg.FetchRequest) (*kmsg.FetchResponse, bool)
 			rp.LastStableOffset = int64(len(log))
 			rp.LogStartOffset = 0
 			for o := p.FetchOffset; o >= 0 && o < int64(len(log)); o++ {
+				if b.perFetch > 0 && o >= p.FetchOffset+int64(b.perFetch) {
+					break // small fetch responses: the client has to poll again for the rest
+				}
 				rp.RecordBatches = append(rp.RecordBatches, c10bEncodeBatch(o, log[o])...)
 				hasData = true
 			}
@@ -488,12 +492,20 @@ type c10bIn struct {
 }
 
 type c10bController struct {
-	mu  sync.Mutex
-	ins []c10bIn
+	mu      sync.Mutex
+	ins     []c10bIn
+	stall   time.Duration // the pipeline is slow to take the FIRST record (back pressure): In blocks that long once
+	stalled bool
 }
 
 func (c *c10bController) In(sourceID pipeline.SourceID, _ string, offsets pipeline.Offsets, data []byte, _ bool, _ metadata.MetaData) uint64 {
 	c.mu.Lock()
+	if c.stall > 0 && !c.stalled {
+		c.stalled = true
+		c.mu.Unlock()
+		time.Sleep(c.stall)
+		c.mu.Lock()
+	}
 	defer c.mu.Unlock()
 	c.ins = append(c.ins, c10bIn{sourceID: sourceID, offset: reflect.ValueOf(offsets).FieldByName("current").Int(), data: string(data)})
 	return uint64(len(c.ins))
@@ -513,6 +525,9 @@ type c10bScenario struct {
 	Run    int      `json:"run"`
 	Name   string   `json:"name"`
 	Topics []string `json:"topics"` // the config's topics list (may name a topic twice)
+	PerFetch     int `json:"per_fetch"`     // >0: the broker hands out at most that many records of a partition per fetch response
+	StallMs      int `json:"stall_ms"`      // >0: In blocks that long for the first record
+	MaxConsumers int `json:"max_consumers"` // max_concurrent_consumers (capacity of a partition consumer's fetch queue); 0 = default
 	Recs   []struct {
 		ID    int    `json:"id"`
 		Topic string `json:"topic"`
@@ -536,6 +551,7 @@ func c10bRun(sc *c10bScenario) []map[string]interface{} {
 	}
 	log("Reset", "name", sc.Name)
 	b := c10bNewBroker()
+	b.perFetch = sc.PerFetch
 	defer b.close()
 	// distinct topic names get a stable index for the trace (NOT the plugin's own numbering)
 	tix := map[string]int{}
@@ -545,6 +561,7 @@ func c10bRun(sc *c10bScenario) []map[string]interface{} {
 		}
 	}
 	offs := map[string]int64{}
+	fetchedOff := map[string]int64{}
 	byKey := map[string]int{} // "topic/part/offset" -> id
 	created := map[string]bool{}
 	for _, r := range sc.Recs {
@@ -557,15 +574,24 @@ func c10bRun(sc *c10bScenario) []map[string]interface{} {
 		byKey[fmt.Sprintf("%s/%d", k, offs[k])] = r.ID
 		offs[k]++
 	}
-	ctl := &c10bController{}
-	config := test.NewConfig(&Config{
+	ctl := &c10bController{stall: time.Duration(sc.StallMs) * time.Millisecond}
+	for _, r := range sc.Recs { // everything produced will be handed out by the broker: it must all enter the pipeline
+		k := fmt.Sprintf("%s/%d", r.Topic, r.Part)
+		log("Fetched", "id", r.ID, "topic", tix[r.Topic], "part", int(r.Part), "off", fetchedOff[k], "epoch", int(r.Epoch))
+		fetchedOff[k]++
+	}
+	rawCfg := &Config{
 		Brokers:             []string{b.addr()},
 		Topics:              sc.Topics,
 		ConsumerGroup:       "verif-group",
 		Offset:              "oldest",
 		AutoCommitInterval:  cfg.Duration("1h"), // only explicit commits (Stop) reach the broker
 		ConsumerMaxWaitTime: cfg.Duration("50ms"),
-	}, nil).(*Config)
+	}
+	if sc.MaxConsumers > 0 {
+		rawCfg.MaxConcurrentConsumers = sc.MaxConsumers
+	}
+	config := test.NewConfig(rawCfg, nil).(*Config)
 	p := &Plugin{}
 	p.Start(config, &pipeline.InputPluginParams{
 		PluginDefaultParams: pipeline.PluginDefaultParams{PipelineName: fmt.Sprintf("verif_c10b_%d", sc.Run), PipelineSettings: &pipeline.Settings{},
